@@ -150,3 +150,24 @@ PROPS["C11"] = {
         {"func": "verifH_C11_helper_sm", "pkg": "iso7816", "params": {"N": [0, 1, 2, 3, 4], "helper": [0, 8], "alg": [0]}, "params_thorough": {"N": [0, 1, 2, 3, 4, 5, 6], "helper": [0, 5, 8], "alg": [0, 1]}, "unwind": 80, "expect_reach": ["returned"]},
     ],
 }
+
+_AA_REDIR = {
+    "github.com/gmrtd/gmrtd/cms.Asn1decodeSubjectPublicKeyInfo": "verifStubSpki",
+    "(*github.com/gmrtd/gmrtd/cms.SubjectPublicKeyInfo).RsaPubKey": "verifStubRsaPubKey",
+    "github.com/gmrtd/gmrtd/cryptoutils.RsaDecryptWithPublicKey": "verifStubRsaDecrypt",
+}
+PROPS["C07"] = {
+    "patterns": ["./activeauth"],
+    "harness": {"activeauth": ["activeauth/c07.go"]},
+    "level_text": "Claimed in part (what does not need the signature primitives). On the real SSA: (1) decodeF for every recovered message of 0..40 bytes (thorough 0..136): accepted exactly when 6A ‖ M1 ‖ digest ‖ trailer with trailer BC or 38/34/36/35 CC and enough bytes for the digest of the hash the trailer names; M1, digest and hash algorithm are exactly those slices. (2) the RSA branch of ValidateActiveAuthSignature after the modular exponentiation, with the recovered message arbitrary (incl. leading zero octets): success exactly when trim0(f) = 6A ‖ M1 ‖ H(M1 ‖ challenge) ‖ trailer with the matching hash, and the evidence records challenge and response - so a wrong trailer/hash pairing, an off-by-one digest slice or dropping the challenge from the hash input is a counterexample. (3) parseEcdsaSignaturePlain for signatures of the listed lengths: accepted exactly when even length and r, s non-zero, and r, s are the two halves. (4) WithChallenge/randomIfd/DoActiveAuth/InternalAuthenticate over a stub transceiver: for every 8-byte challenge the command data on the wire and the evidence nonce equal it (no aliasing of the caller's slice); other lengths are refused.",
+    "level_note": "Not applicable to this technique and outside the claim: that a response is accepted only if it is a valid signature under the DG15 key and that every genuine response is accepted in the cryptographic sense (modular exponentiation, ecdsa.Verify, encoding/asn1 DER decoding of keys and DER signatures cannot be encoded; they are replaced by harness stubs: Asn1decodeSubjectPublicKeyInfo, RsaPubKey, RsaDecryptWithPublicKey). Harnesses that use these stubs cannot be replayed natively (no_replay); a counterexample from them is reported as the engine found it. The offline nonce check of verifier.Verify is in C14. Hashes are uninterpreted functions.",
+    "bounds": "recovered message up to 40 bytes (136 thorough), 0 or 2 leading zero octets; signatures of 0..64 bytes (listed lengths); challenges of 0,7,8,9,16 bytes",
+    "outside": "RSA exponentiation, ECDSA verification, DER parsing; RsaDecryptWithPublicKey's own zero-padding",
+    "assumptions": ["hash functions as uninterpreted functions per (algorithm, length)"],
+    "jobs": [
+        {"func": "verifH_C07_decodeF", "pkg": "activeauth", "params": {"N": list(range(0, 41))}, "params_thorough": {"N": list(range(0, 137))}, "unwind": 200, "expect_reach": ["decoded", "rejected"]},
+        {"func": "verifH_C07_rsa", "pkg": "activeauth", "params": {"N": [3, 4, 22, 23, 30, 31, 32, 38, 40], "Z": [0, 2]}, "params_thorough": {"N": list(range(0, 72)), "Z": [0, 1, 3]}, "unwind": 200, "redirect": _AA_REDIR, "no_replay": True, "expect_reach": ["validated", "accepted"]},
+        {"func": "verifH_C07_plain", "pkg": "activeauth", "params": {"N": [0, 1, 2, 3, 4, 6, 16, 64]}, "params_thorough": {"N": list(range(0, 20)) + [48, 56, 64, 96, 128, 132]}, "unwind": 200, "expect_reach": ["parsed", "rejected"]},
+        {"func": "verifH_C07_challenge", "pkg": "activeauth", "params": {"N": [0, 7, 8, 9, 16]}, "unwind": 200, "redirect": {"github.com/gmrtd/gmrtd/cms.Asn1decodeSubjectPublicKeyInfo": "verifStubSpki", "(*github.com/gmrtd/gmrtd/cms.SubjectPublicKeyInfo).RsaPubKey": "verifStubRsaPubKeyFails"}, "no_replay": True, "expect_reach": ["sent"]},
+    ],
+}
